@@ -1030,7 +1030,7 @@ impl CharacterStringType {
                 .collect()
         });
         static ANY_CHARSET: LazyLock<BTreeMap<usize, char>> = LazyLock::new(|| {
-            (0..u16::MAX as u32)
+            (0..=u16::MAX as u32)
                 .filter_map(char::from_u32)
                 .enumerate()
                 .collect()
